@@ -948,12 +948,14 @@ def run_line(ctx, spec, terms, kept):
             if py_bound_risky(int(fo.numerator), int(fo.denominator)):
                 risky = True
         t = tags[(f.owner, f.name)]
-        if t[0] == "fracsum":  # the intermediate sums of the re-parse
-            acc = None
-            for n_, d_, td_ in t[1]:
-                cur = Fraction(n_, d_ * (td_ or 1))
-                acc = cur if acc is None else acc + cur
-                if py_bound_risky(acc.numerator, acc.denominator):
+        if t[0] == "fracsum":  # the intermediate sums of the re-parse, in the library's own (unreduced) lcm form
+            log = []
+            ref_parse("+".join(ref_str3(*c) for c in t[1]), log)
+            if any(e[0] == "hidden" or py_bound_risky(e[1], e[2]) for e in log):
+                risky = True
+        elif t[0] == "time":
+            for c in t[3]:
+                if py_bound_risky(c[0], c[1]):
                     risky = True
     if risky:
         ctx.count("model:skipped_bound_near_tie")
